@@ -8,12 +8,14 @@ open Lang
 /-- arities of the elements agree with the node kinds (part of `Expr.Over`) -/
 def Arities : Expr → Prop
   | .leaf _ => True
+  | .words _ => False
   | .app0 f => f.arity = 0
   | .app1 f x => f.arity = 1 ∧ Arities x
   | .app2 f l r => f.arity = 2 ∧ Arities l ∧ Arities r
 
 theorem arities_of_over {tbl : Table} : ∀ {e : Expr}, e.Over tbl → Arities e
   | .leaf _, _ => trivial
+  | .words _, h => h
   | .app0 _, h => h.2
   | .app1 _ _, h => ⟨h.2.1, arities_of_over h.2.2⟩
   | .app2 _ _ _, h => ⟨h.2.1, arities_of_over h.2.2.1, arities_of_over h.2.2.2⟩
@@ -21,6 +23,7 @@ theorem arities_of_over {tbl : Table} : ∀ {e : Expr}, e.Over tbl → Arities e
 theorem build_pfx : ∀ (e : Expr), Arities e → ∀ (rest : List Tok) (stk : List Expr),
     build (e.pfx ++ rest) stk = build rest (e :: stk)
   | .leaf s, _, rest, stk => by simp [Expr.pfx, build]
+  | .words _, h, _, _ => h.elim
   | .app0 f, h, rest, stk => by
     have h0 : f.arity = 0 := h
     simp [Expr.pfx, build, h0]
@@ -43,6 +46,7 @@ theorem rpn_pfx {V : Type} (S : Sem V) : ∀ (e : Expr), Arities e → ∀ (rest
   | .leaf s, _, rest, stk => by
     simp only [Expr.pfx, List.cons_append, List.nil_append, rpn, evalTree]
     cases S.leaf s <;> rfl
+  | .words _, h, _, _ => h.elim
   | .app0 f, h, rest, stk => by
     have h0 : f.arity = 0 := h
     simp [Expr.pfx, rpn, evalTree, h0]
